@@ -186,6 +186,35 @@ Definition spec_rows (order : list str) (contents : str) : option (list (list st
   | [] => None
   end.
 
+(** The single-line form ("SHA1-Current: <hash> <size>" in a pdiff Index): a stored
+    value without any line boundary holding exactly one value per sub-field. *)
+Definition spec_single (order : list str) (contents : str) : option (list str) :=
+  if existsb py_islinebreak contents then None
+  else let toks := split_ws py_isspace contents in
+       if (length toks =? length order)%nat then Some toks else None.
+
+(** The one combination in which the single-line form cannot be dumped: a Release
+    under "dak" measures every present field, and a mapping cannot be measured
+    (documented exclusion; the code raises TypeError there). *)
+Definition single_breaks (c : cls) (b : behav) : bool :=
+  match c, b with Release, Dak => true | _, _ => false end.
+
+(** A parsed text all of whose PRESENT structured fields have complete lines (one value
+    per sub-field on each continuation line), or are in the single-line form where the
+    class can dump that.  Nothing is asked about absent fields. *)
+Definition raw_ok (c : cls) (b : behav) (raw : list (str * str)) : bool :=
+  forallb (fun kv => match spec_order c (fst kv) with
+                     | Some order =>
+                         match spec_rows order (snd kv) with
+                         | Some _ => true
+                         | None => match spec_single order (snd kv) with
+                                   | Some _ => negb (single_breaks c b)
+                                   | None => false
+                                   end
+                         end
+                     | None => true
+                     end) raw.
+
 (** ** The property's domain, as a boolean/partial function on model paragraphs *)
 
 (** Plain fields that may accompany the structured ones in a generated paragraph. *)
@@ -253,3 +282,52 @@ Definition fvalue_of_sval (k : cls) (key : str) (sv : sval) : fvalue :=
   end.
 Definition para_of_spara (k : cls) (sp : spara) : para :=
   map (fun kv => (fst kv, fvalue_of_sval k (fst kv) (snd kv))) sp.
+
+(** ** "Dumpable": what the caller must have put into the PRESENT fields for a dump to
+    be possible at all (wider than the property's domain: values need not be
+    whitespace-free, records may have extra sub-fields, names may repeat) *)
+
+(** the record has every sub-field of [order], none containing a line feed *)
+Definition rec_complete (ci : bool) (order : list str) (r : record) : bool :=
+  forallb (fun x => match rec_get ci x r with
+                    | Ok v => negb (mem_char LF v)
+                    | Err _ => false
+                    end) order.
+
+Definition val_dumpable (c : cls) (b : behav) (ci : bool) (order : list str) (v : fvalue) : bool :=
+  match v with
+  | Multi (r :: rs) => forallb (rec_complete ci order) (r :: rs)
+  | Single r => rec_complete ci order r && negb (single_breaks c b)
+  | _ => false
+  end.
+
+(** Conditions on the entries that ARE there; nothing is asked about the
+    structured fields of the class that are absent. *)
+Definition entry_dumpable (c : cls) (b : behav) (ci : bool) (kv : str * fvalue) : bool :=
+  match lookup_exact (ascii_lower (fst kv)) (table_of c) with
+  | Some order => val_dumpable c b ci order (snd kv)
+  | None => match snd kv with Plain _ => true | _ => false end
+  end.
+
+Definition para_dumpable (c : cls) (b : behav) (ci : bool) (p : para) : bool :=
+  forallb (entry_dumpable c b ci) p.
+
+(** ** Well-formed in-place edits (case format of MvCheck) *)
+
+Definition rec_ok (c : cls) (ci : bool) (key : str) (r : record) : bool :=
+  match lookup_exact (ascii_lower key) (table_of c) with
+  | Some order => rec_complete ci order r
+  | None => false
+  end.
+
+(** an edit that hands over complete records / LF-free values / a dumpable value
+    (indices and the presence of the key are NOT constrained: a failing edit raises
+    and leaves no new state) *)
+Definition edit_ok (c : cls) (b : behav) (ci : bool) (e : edit) : bool :=
+  match e with
+  | ESetRec key _ r | ERotate key r | EAppend key r => rec_ok c ci key r
+  | ESetSub _ _ _ v => negb (mem_char LF v)
+  | EAssign key v => entry_dumpable c b ci (key, v)
+  | EDel _ => true
+  end.
+
